@@ -99,6 +99,9 @@ func (w *World) descLess(a, b *MEntry) bool { // a newer than b
 	if a.Time != b.Time {
 		return a.Time > b.Time
 	}
+	if w.M.TimeHash {
+		return a.Hash > b.Hash
+	}
 	if a.ClockID != b.ClockID {
 		return a.ClockID > b.ClockID
 	}
@@ -1192,7 +1195,7 @@ func (w *World) doPartial() {
 	r := w.R
 	limPick := r.Choose("partial-limit", 1<<16)
 	conc := r.Choose("load-conc", 6)
-	if src == nil || other == nil || len(src.Set) < 2 || w.Codec == "pb" || !w.P.Check["C02"] {
+	if src == nil || other == nil || len(src.Set) < 2 || w.Codec == "pb" || !(w.P.Check["C02"] || w.P.Check["C01"]) {
 		return
 	}
 	heads := src.Log.Heads().Slice()
@@ -1203,7 +1206,7 @@ func (w *World) doPartial() {
 		l, err = ipfslog.NewFromEntry(ctx, w.St, src.W.ID, append([]iface.IPFSLogEntry(nil), heads...), w.loadOpts(), &entry.FetchOptions{Concurrency: conc, Length: &lim})
 	})
 	if err != nil {
-		r.Violate("C02:load-error", "length-limited load failed with no fault injected: %v", err)
+		r.Violate(w.P.Prop+":load-error", "length-limited load failed with no fault injected: %v", err)
 	}
 	check := func(when string) {
 		es := hashSet(l.GetEntries())
@@ -1221,18 +1224,31 @@ func (w *World) doPartial() {
 		}
 		sort.Strings(want)
 		if got := sortedCopy(hashSeq(l.Heads())); joinS(got) != joinS(want) {
-			r.Violate("C02:heads-partial", "%s: a partially loaded log (limit %d of %d) has heads %v, its unreferenced entries are %v", when, lim, len(src.Set), w.M.Names(got), w.M.Names(want))
+			r.Violate(w.P.Prop+":heads-partial", "%s: a partially loaded log (limit %d of %d) has heads %v, its unreferenced entries are %v", when, lim, len(src.Set), w.M.Names(got), w.M.Names(want))
 		}
 	}
 	check("after the length-limited load")
 	if _, err := l.Join(w.clone(other, true), -1); err != nil {
-		r.Violate("C02:join-error", "merge into a partially loaded log failed: %v", err)
+		r.Violate(w.P.Prop+":join-error", "merge into a partially loaded log failed: %v", err)
 	}
 	check("after an unbounded merge")
 	if _, err := l.Join(w.clone(src, true), -1); err != nil {
-		r.Violate("C02:join-error", "merge into a partially loaded log failed: %v", err)
+		r.Violate(w.P.Prop+":join-error", "merge into a partially loaded log failed: %v", err)
 	}
 	check("after merging the full source")
+	if w.P.Check["C01"] {
+		// if it now holds exactly what the two replicas hold: same entries, hence same heads and values
+		u := copySet(src.Set)
+		union(u, other.Set)
+		if got := hashSet(l.GetEntries()); setEq(got, u) {
+			if lin, strict := w.M.Linear(u, w.ByHash); strict && joinS(hashSeq(l.Values())) != joinS(lin) {
+				r.Violate("C01:converge", "a log loaded with a length limit and then merged with everything replicas %d and %d hold linearises differently from them", src.Idx, other.Idx)
+			}
+			r.Probe("partially-loaded-log-caught-up")
+		}
+		// (a merge walks the other log only down to entries it already holds, so a partially loaded log need
+		// not catch up at all: nothing is claimed then)
+	}
 	r.Probe("partially-loaded-log-merged")
 	r.Logf("partial n%d limit=%d then merged with n%d and n%d", src.Idx, lim, other.Idx, src.Idx)
 }
